@@ -1,9 +1,164 @@
-//! STUB component for sdt -- to be written
+//! component 31: the generic table `Sdt` (C13).  Vocabulary: coq/theories/Impl/Sdt.v
 use crate::sx::*;
+use crate::tcommon::*;
 use crate::Emit;
+use acpi_tables::sdt::Sdt;
+use acpi_tables::AmlSink;
 
-pub fn run(_case: &Sx, _out: &mut Vec<Ev>) {
-    panic!("harness: component sdt not implemented")
+fn guarded(t: &mut Sdt, f: impl FnOnce(&mut Sdt)) -> u64 {
+    match std::panic::catch_unwind(std::panic::AssertUnwindSafe(|| f(t))) {
+        Ok(()) => 0,
+        Err(_) => 1,
+    }
 }
 
-pub fn gen(_tier: &str, _rng: &mut Rng, _emit: &mut Emit) {}
+pub fn run(case: &Sx, out: &mut Vec<Ev>) {
+    let c = case.list();
+    let k = c[0].list();
+    let mut t = Sdt::new(k[0].arr::<4>(), k[1].num() as u32, k[2].num() as u8, k[3].arr::<6>(), k[4].arr::<8>(), k[5].num() as u32);
+    for op in &c[1..] {
+        if let Sx::A(_) = op {
+            // as_slice(), len() and to_aml_bytes must agree
+            let s = t.as_slice().to_vec();
+            if s.len() != t.len() || image(&t) != Ev::Bytes(s.clone()) {
+                panic!("harness: Sdt observers disagree");
+            }
+            out.push(Ev::Bytes(s));
+            continue;
+        }
+        let o = op.list();
+        let n = |i: usize| o[i].num();
+        let r = match n(0) {
+            1 => match n(1) {
+                1 => guarded(&mut t, |t| t.append(n(2) as u8)),
+                2 => guarded(&mut t, |t| t.append(n(2) as u16)),
+                4 => guarded(&mut t, |t| t.append(n(2) as u32)),
+                8 => guarded(&mut t, |t| t.append(n(2))),
+                _ => panic!("harness: bad width"),
+            },
+            2 => {
+                let b = o[1].bytes();
+                guarded(&mut t, |t| t.append_slice(&b))
+            }
+            3 => {
+                let b = o[2].bytes();
+                guarded(&mut t, |t| t.write_bytes(n(1) as usize, &b))
+            }
+            4 => match n(1) {
+                1 => guarded(&mut t, |t| t.write_u8(n(2) as usize, n(3) as u8)),
+                2 => guarded(&mut t, |t| t.write_u16(n(2) as usize, n(3) as u16)),
+                4 => guarded(&mut t, |t| t.write_u32(n(2) as usize, n(3) as u32)),
+                8 => guarded(&mut t, |t| t.write_u64(n(2) as usize, n(3))),
+                _ => panic!("harness: bad width"),
+            },
+            5 => match n(1) {
+                1 => guarded(&mut t, |t| AmlSink::byte(t, n(2) as u8)),
+                2 => guarded(&mut t, |t| AmlSink::word(t, n(2) as u16)),
+                4 => guarded(&mut t, |t| AmlSink::dword(t, n(2) as u32)),
+                8 => guarded(&mut t, |t| AmlSink::qword(t, n(2))),
+                _ => panic!("harness: bad width"),
+            },
+            6 => {
+                let b = o[1].bytes();
+                guarded(&mut t, |t| AmlSink::vec(t, &b))
+            }
+            7 => guarded(&mut t, |t| t.update_checksum()),
+            _ => panic!("harness: bad sdt op"),
+        };
+        out.push(Ev::Num(r));
+    }
+}
+
+fn ctor(rng: &mut Rng, len: u64) -> Sx {
+    let h = rand_hdr(rng);
+    l(vec![blist(&rng.bytes(4)), a(len), a(rng.val(8)), h[0].clone(), h[1].clone(), h[2].clone()])
+}
+
+/// the alphabet of parameterised operations for a table of `len` bytes
+fn alphabet(rng: &mut Rng, len: u64) -> Vec<Sx> {
+    let mut v = Vec::new();
+    for w in [1u64, 2, 4, 8] {
+        v.push(l(vec![a(1), a(w), a(rng.val(8 * w as u32))]));
+        v.push(l(vec![a(5), a(w), a(rng.val(8 * w as u32))]));
+    }
+    v.push(l(vec![a(2), blist(&[])]));
+    v.push(l(vec![a(2), blist(&rng.bytes(1))]));
+    v.push(l(vec![a(2), blist(&rng.bytes(5))]));
+    v.push(l(vec![a(6), blist(&rng.bytes(3))]));
+    v.push(l(vec![a(6), blist(&[])]));
+    v.push(l(vec![a(7)]));
+    let offs = [0u64, 4, 8, 9, 10, 35, 36, len.saturating_sub(8), len.saturating_sub(4), len.saturating_sub(2), len.saturating_sub(1), len, len + 1, len + 1000, u64::MAX, u64::MAX - 3];
+    for off in offs {
+        let w = *rng.pick(&[1u64, 2, 4, 8]);
+        v.push(l(vec![a(4), a(w), a(off), a(rng.val(8 * w as u32))]));
+        let k = rng.below(6) as usize;
+        v.push(l(vec![a(3), a(off), blist(&rng.bytes(k))]));
+    }
+    v
+}
+
+fn with_obs(ctor: Sx, ops: Vec<Sx>) -> Sx {
+    let mut v = vec![ctor, a(1)];
+    for o in ops {
+        v.push(o);
+        v.push(a(1));
+    }
+    l(v)
+}
+
+pub fn gen(tier: &str, rng: &mut Rng, emit: &mut Emit) {
+    let depth = if tier == "thorough" { 3 } else { 2 };
+    for len in [36u64, 37, 40, 255, 256, 300] {
+        let al = alphabet(rng, len);
+        // all sequences of length <= depth over the alphabet (length 3 only for two initial lengths)
+        emit.case(31, with_obs(ctor(rng, len), vec![]));
+        for x in &al {
+            emit.case(31, with_obs(ctor(rng, len), vec![x.clone()]));
+        }
+        for x in &al {
+            for y in &al {
+                emit.case(31, with_obs(ctor(rng, len), vec![x.clone(), y.clone()]));
+            }
+        }
+        if depth >= 3 && (len == 36 || len == 256) {
+            let small: Vec<&Sx> = al.iter().step_by(2).collect();
+            for x in &small {
+                for y in &small {
+                    for z in &small {
+                        emit.case(31, with_obs(ctor(rng, len), vec![(*x).clone(), (*y).clone(), (*z).clone()]));
+                    }
+                }
+            }
+        }
+    }
+    // refused constructors
+    for len in [0u64, 1, 35] {
+        emit.case(31, l(vec![ctor(rng, len), a(1)]));
+    }
+    // random sequences of length <= 200
+    let n = if tier == "thorough" { 20_000 } else { 2_000 };
+    for _ in 0..n {
+        let len = *rng.pick(&[36u64, 37, 48, 64, 100, 255, 256, 1000]);
+        let k = match rng.below(3) {
+            0 => rng.range(1, 8),
+            1 => rng.range(1, 40),
+            _ => rng.range(40, 200),
+        };
+        let mut cur = len;
+        let mut ops = Vec::new();
+        for _ in 0..k {
+            let al = alphabet(rng, cur);
+            let o = rng.pick(&al).clone();
+            // track the size the table will have (appends only)
+            let ol = o.list();
+            match ol[0].num() {
+                1 | 5 => cur += ol[1].num(),
+                2 | 6 => cur += ol[1].list().len() as u64,
+                _ => {}
+            }
+            ops.push(o);
+        }
+        let c = ctor(rng, len);
+        emit.case(31, history(rng, c, ops));
+    }
+}
